@@ -72,7 +72,7 @@ theorem unmarshalElems_erase : ∀ xs : List Val, unmarshalElems (eraseList xs) 
   | x :: rest => by simp only [eraseList, unmarshalElems, unmarshalElem_erase x, unmarshalElems_erase rest]
 theorem unmarshalExpr_erase : ∀ v : Val, unmarshalExpr (erase v) = erase (unmarshalExpr v)
   | .stk f c xs => by simp only [erase, unmarshalExpr, eraseList, unmarshalElems_erase xs, strV]
-  | .cnd f c kw op ex => by simp only [erase, unmarshalExpr]
+  | .cnd f c kw op ex => by simp only [erase, unmarshalExpr, eraseList, unmarshalExpr_erase ex, strV]
   | .nil => rfl
   | .leaf _ => rfl
   | .zstk _ => rfl
@@ -81,8 +81,10 @@ theorem unmarshalExpr_erase : ∀ v : Val, unmarshalExpr (erase v) = erase (unma
   | .opv _ => rfl
 end
 
-/-- `Unmarshal()` of the alias tree is that of the native tree (a Condition alias passed through
-as a Condition's expression is the alias of the same instance) -/
+/-- `Unmarshal()` of the alias tree is that of the native tree: a plain equality. Every Stack and every Condition -
+as an element or as a Condition's expression, in any form, at any depth - is expanded to its row (repair F43: a Condition
+held as a Condition's expression used to be handed through as the live value, alias form included), so the only
+forms left in the result are those of leaves the user put there (`[]any` leaves holding handles) -/
 theorem C12_unmarshal (s : Stk) : s.erase.unmarshal = eraseList s.unmarshal := by
   unfold Stk.unmarshal Stk.erase; simp only [eraseList, unmarshalElems_erase, erase, strV]
 
